@@ -37,7 +37,7 @@ def tie(rep, tier, rng, model_ok):
     # requests made through a Scheduler handle on another thread while the main thread steps (shared with C08): an
     # accepted request must lie strictly after the time the step has reached - 'all pending actions are later than now'
     rep.cov.setdefault("parts", {})
-    c08.race_part(rep, rng, model_ok, 16 if q else 300)
+    c08.race_part(rep, rng, model_ok, 40 if q else 400)
 
 
 def replay(rep, path, model_ok):
